@@ -782,3 +782,58 @@ def _(E, p):
         return [it(E.arr("points", _pts3(4, 142, 0.8)), deriv=2)]
     # element without tabulated default radial grid / preset data
     return [AtomGrid.from_preset(119, "coarse", center=E.arr("center", np.zeros(3)))]
+
+
+# ---- object lifecycles: construct from the caller's arrays, then use the public setters / methods -----------------
+
+
+@entry("setters_after_construction", 3.0)
+def _(E, p):
+    """The arrays a grid was constructed from stay the caller's: assigning new points / weights to the grid later (or to a
+    local grid / transformed grid derived from it) must not write into them."""
+    from grid.atomgrid import AtomGrid
+    from grid.basegrid import Grid, OneDGrid
+    from grid.becke import BeckeWeights
+    from grid.molgrid import MolGrid
+    from grid.periodicgrid import PeriodicGrid
+    from grid.rtransform import IdentityRTransform, LinearFiniteRTransform
+
+    n = 12
+    v = p % 6
+    out = []
+    if v == 0:
+        g = Grid(E.arr("points", _pts3(n, 150)), E.arr("weights", _wts(n, 151)))
+        g.points = E.arr("new_points", _pts3(n, 152) + 1.0)
+        g.weights = E.arr("new_weights", _wts(n, 153))
+        out += [g, g.get_localgrid(E.arr("center", np.ones(3)), 1.5)]
+    elif v == 1:
+        g = Grid(E.arr("points", _pts3(n, 154)), E.arr("weights", _wts(n, 155)))
+        c = E.arr("center", np.array([0.1, 0.2, 0.3]))
+        lg = g.get_localgrid(c, np.inf)
+        lg.points = lg.points - np.asarray(c)
+        lg.weights = lg.weights * 2.0
+        out += [g, lg]
+    elif v == 2:
+        og = OneDGrid(E.arr("points", np.linspace(0.0, 2.5, 6)), E.arr("weights", np.full(6, 0.5)), (0.0, 3.0))
+        rg = IdentityRTransform().transform_1d_grid(og)
+        rg.points = 2.0 * rg.points
+        rg2 = LinearFiniteRTransform(0.0, 3.0).transform_1d_grid(OneDGrid(E.arr("points2", np.linspace(-0.9, 0.9, 5)), E.arr("weights2", np.ones(5)), (-1.0, 1.0)))
+        rg2.weights = rg2.weights * 0.5
+        out += [og, rg, rg2]
+    elif v == 3:
+        pg = PeriodicGrid(E.arr("points", np.array([0.1, 0.4, 0.7])), E.arr("weights", np.ones(3)), E.arr("realvecs", np.array([1.0])), wrap=bool(p % 12 >= 6))
+        pg.points = E.arr("new_points", np.array([0.15, 0.45, 0.75]))
+        out += [pg, pg.get_localgrid(E.arr("center", np.array(0.5)), 0.3)]
+    elif v == 4:
+        ag = AtomGrid(_rgrid(4), degrees=[5], center=E.arr("center", np.array([0.2, 0.0, -0.1])))
+        ag.weights = E.arr("new_weights", _wts(ag.size, 156))
+        f = E.arr("f", _gauss(ag.points, ag.center, 0.9))
+        out += [ag.integrate(f), ag.get_localgrid(E.arr("lc", np.array([0.2, 0.0, 0.0])), 1.0)]
+    else:
+        atnums, atcoords = _two_atoms(E)
+        ags = [AtomGrid(_rgrid(3), degrees=[3], center=atcoords[i].copy()) for i in range(2)]
+        mg = MolGrid(atnums, ags, E.arr("aim_weights", _rs(157).uniform(0.2, 0.8, sum(a.size for a in ags))), store=True)
+        mg.weights = E.arr("new_weights", _wts(mg.size, 158))
+        mg.points = E.arr("new_points", np.array(mg.points) + 0.1)
+        out += [mg, mg.get_localgrid(E.arr("center", np.zeros(3)), 1.2)]
+    return out
